@@ -335,7 +335,7 @@ func TestVerifC10(t *testing.T) {
 		}
 	}
 	// Part 2: PRNG layouts: more and larger pages, runs of empty pages, broken links, odd encodings
-	total := c.Share(c.Pick(6000, 150000))
+	total := c.Share(c.Pick(24000, 150000))
 	const rb = 200
 	for i := 0; i < total; i += rb {
 		n := caseNo
@@ -362,7 +362,7 @@ func TestVerifC10(t *testing.T) {
 		return
 	}
 	defer s.Close()
-	nRemote := c.Share(c.Pick(800, 5000))
+	nRemote := c.Share(c.Pick(2400, 5000))
 	for i := 0; i < nRemote; i++ {
 		n := caseNo
 		caseNo++
